@@ -160,6 +160,13 @@ func TestDriveC09(t *testing.T) {
 			t.Fatalf("C09 child failed outside a scenario (after %d scenarios): %v\n%s", done, err, tailStr(ob.String(), 3000))
 		}
 		// the scenario `open` crashed the process: record it and continue after it
+		// (a process that died in the middle of a write leaves a fragment of a line: it is cut off)
+		if data, e0 := os.ReadFile(out); e0 == nil && len(data) > 0 {
+			cut := bytes.LastIndexByte(data, '\n') + 1
+			if frag := bytes.TrimSpace(data[cut:]); len(frag) > 0 && !json.Valid(frag) {
+				must(os.Truncate(out, int64(cut)))
+			}
+		}
 		f, e2 := os.OpenFile(out, os.O_APPEND|os.O_WRONLY, 0644)
 		must(e2)
 		fin := Ev{"ev": "Final", "crashed": true, "hung": hung, "regs": c09BeginRegs(out, open), "vt": 0, "t": open + 1, "seq": 999999,
